@@ -45,6 +45,9 @@ struct StreamPlan {
     /// the writer drops the stream instead of calling finish()
     drop_unfinished: bool,
     resp: usize,
+    /// the reading application stops the stream once it has read this much (the writer, quite
+    /// possibly blocked on flow control at that moment, must be told)
+    stop_after: Option<usize>,
 }
 
 #[derive(Clone, Debug)]
@@ -74,7 +77,15 @@ struct Results {
     t_read: BTreeMap<(u32, u64), Ns>,
     t_stopped: BTreeMap<(u32, u64), Ns>,
     /// errors seen by stream / datagram operations while the connection was meant to be alive
-    unexpected: Vec<String>,
+    unexpected: Vec<(u32, String)>,
+    /// the network dropped datagrams at some point of this world
+    lossy: bool,
+    /// connections that died of an idle timeout on a lossy network: after a lossy handshake the
+    /// probe-timeout backoff (which a client keeps until the handshake is confirmed) can exceed
+    /// the idle timeout, and the first loss afterwards then legitimately ends the connection
+    lost: std::collections::BTreeSet<u32>,
+    /// (conn, stream) -> the reader is to stop the stream after this many bytes
+    stop_plan: BTreeMap<(u32, u64), usize>,
 }
 
 type Res = Arc<Mutex<Results>>;
@@ -98,7 +109,7 @@ fn spawn(sim: &Sim, res: &Res, name: String, f: impl FnOnce(Lbl) -> std::pin::Pi
 fn op_failed(res: &Res, ci: u32, what: &str, e: &dyn std::fmt::Display) {
     let mut r = res.lock().unwrap();
     if !r.closing.contains(&ci) {
-        r.unexpected.push(format!("{}: {}", what, e));
+        r.unexpected.push((ci, format!("{}: {}", what, e)));
     }
 }
 
@@ -113,8 +124,14 @@ fn draw(sim: &Sim, site: &'static str, n: u32) -> u32 {
 
 async fn read_all(sim: &Sim, res: &Res, lbl: &Lbl, ci: u32, recv: &mut RecvStream, key: u64, what: &str) -> Option<usize> {
     let mut pos = 0usize;
+    let stop_at = res.lock().unwrap().stop_plan.get(&(ci, VarInt::from(recv.id()).into_inner())).copied().filter(|_| !what.contains("response"));
     let mut just_cancelled = false;
     loop {
+        if stop_at.is_some_and(|k| pos >= k) {
+            let _ = recv.stop(VarInt::from_u32(33));
+            sim.with(|s| s.probes.hit("reader_stopped_stream"));
+            return None;
+        }
         lbl.set(&format!("{} read at {}", what, pos));
         // read_chunk and read are documented as cancel-safe: drop the pending future and retry
         // (never twice in a row, so that the task cannot spin)
@@ -193,6 +210,10 @@ async fn write_all(sim: &Sim, res: &Res, lbl: &Lbl, ci: u32, send: &mut SendStre
                 YieldNow(false).await;
             }
             Some(Ok(k)) => pos += k,
+            Some(Err(quinn::WriteError::Stopped(_))) if res.lock().unwrap().stop_plan.contains_key(&(ci, VarInt::from(send.id()).into_inner())) => {
+                sim.with(|s| s.probes.hit("writer_told_of_stop"));
+                break;
+            }
             Some(Err(e)) => {
                 sim.log(|| format!("{} write error {}", what, e));
                 op_failed(res, ci, what, &e);
@@ -222,8 +243,11 @@ async fn client_stream(sim: Sim, res: Res, lbl: Lbl, conn: Connection, ci: u32, 
             }
         };
         let sid = VarInt::from(send.id()).into_inner();
+        if let Some(k) = p.stop_after {
+            res.lock().unwrap().stop_plan.insert((ci, sid), k);
+        }
         let n = write_all(&sim, &res, &lbl, ci, &mut send, skey(ci, sid, false), p.size, p.chunk, p.cancel_w, &what).await;
-        let complete = n == p.size;
+        let complete = n == p.size && p.stop_after.is_none();
         res.lock().unwrap().written.insert((ci, sid), (n, complete));
         if p.drop_unfinished {
             drop(send);
@@ -241,8 +265,11 @@ async fn client_stream(sim: Sim, res: Res, lbl: Lbl, conn: Connection, ci: u32, 
             Err(_) => return,
         };
         let sid = VarInt::from(send.id()).into_inner();
+        if let Some(k) = p.stop_after {
+            res.lock().unwrap().stop_plan.insert((ci, sid), k);
+        }
         let n = write_all(&sim, &res, &lbl, ci, &mut send, skey(ci, sid, false), p.size, p.chunk, p.cancel_w, &what).await;
-        res.lock().unwrap().written.insert((ci, sid), (n, n == p.size));
+        res.lock().unwrap().written.insert((ci, sid), (n, n == p.size && p.stop_after.is_none()));
         if p.drop_unfinished {
             drop(send);
         } else {
@@ -355,6 +382,7 @@ async fn client_main(sim: Sim, res: Res, lbl: Lbl, ep: Endpoint, cfg: quinn::Cli
     }
     // close() is abrupt by design (data not yet handed to the peer application may be discarded):
     // the scenario ends a connection only once the server application has read what was sent
+    let mut nap = MS;
     loop {
         let all = {
             let r = res.lock().unwrap();
@@ -363,8 +391,18 @@ async fn client_main(sim: Sim, res: Res, lbl: Lbl, ep: Endpoint, cfg: quinn::Cli
         if all {
             break;
         }
+        if let Some(e) = conn.close_reason() {
+            let mut r = res.lock().unwrap();
+            if r.lossy && matches!(e, quinn::ConnectionError::TimedOut) {
+                r.lost.insert(ci);
+            } else {
+                r.unexpected.push((ci, format!("client {}: connection ended by itself: {}", ci, e)));
+            }
+            break;
+        }
         lbl.set("waiting for the server application to have read every finished stream");
-        sleep(&sim, MS).await;
+        sleep(&sim, nap).await;
+        nap = (nap * 2).min(1000 * MS);
     }
     res.lock().unwrap().closing.insert(ci);
     if plan.explicit_close || plan.parked {
@@ -545,6 +583,7 @@ fn draw_plan(ch: &mut Chooser, big: bool) -> ConnPlan {
             cancel_w: ch.choose("c18.cancel_w_max", 4),
             drop_unfinished: ch.chance("c18.drop_unfinished", 1, 4),
             resp: ch.range_log("c18.resp", 0, 20_000) as usize,
+            stop_after: if ch.chance("c18.stop_after", 1, 5) { Some(ch.range_log("c18.stop_after_n", 0, 5000) as usize) } else { None },
         });
     }
     // (single-byte chunks on big streams would only burn steps)
@@ -588,12 +627,18 @@ fn run(mut ch: Chooser, ctx: &RunCtx, faults: bool, big: bool) -> RunOut {
     sim.with(|s| s.net = net.clone());
     let rt: Arc<dyn quinn::Runtime> = Arc::new(SimRuntime(sim.clone()));
     let res: Res = Arc::new(Mutex::new(Results::default()));
+    res.lock().unwrap().lossy = net.faults && net.drop > 0;
     let clock = cfgs::SimTime::new();
 
     // server
     let server_addr = cfgs::addr(0, 0);
+    // (debugging aid: with --log the packets' plaintext is recorded and dumped at the end)
+    let dbg_tap = if ctx.log { Some(crate::tap::new_tap()) } else { None };
     let scfg = {
-        let crypto = cfgs::untapped_server_crypto(cfgs::rustls_server(false, true));
+        let crypto = match &dbg_tap {
+            Some(t) => cfgs::tapped_server_crypto(t, 0, cfgs::rustls_server(false, true)),
+            None => cfgs::untapped_server_crypto(cfgs::rustls_server(false, true)),
+        };
         cfgs::server_config(crypto, 0x70, Arc::new(ks.build()), clock.clone())
     };
     let sep = EpOpts { seed: 0x5E47, cid_len: 8, ..Default::default() };
@@ -610,7 +655,10 @@ fn run(mut ch: Chooser, ctx: &RunCtx, faults: bool, big: bool) -> RunOut {
     for ci in 0..n_clients {
         let cep = EpOpts { seed: 0xC11E ^ ((ci as u64) << 20), cid_len: 8, reset_key_seed: 100 + ci as u64, ..Default::default() };
         let ep = Endpoint::new_with_abstract_socket(cfgs::endpoint_config(&cep), None, sim.socket(cfgs::addr(1 + ci, 0)), rt.clone()).expect("client endpoint");
-        let crypto = cfgs::untapped_client_crypto(cfgs::rustls_client(true));
+        let crypto = match &dbg_tap {
+            Some(t) => cfgs::tapped_client_crypto(t, 1 + ci, cfgs::rustls_client(true)),
+            None => cfgs::untapped_client_crypto(cfgs::rustls_client(true)),
+        };
         let ccfg = cfgs::client_config(crypto, Arc::new(kc.build()), 0xDC1D ^ ci as u64);
         let (s2, r2, plan) = (sim.clone(), res.clone(), plans[ci as usize].clone());
         spawn(&sim, &res, format!("client{}-main", ci), move |l| Box::pin(client_main(s2, r2, l, ep, ccfg, server_addr, ci, plan)));
@@ -627,6 +675,15 @@ fn run(mut ch: Chooser, ctx: &RunCtx, faults: bool, big: bool) -> RunOut {
     let budget: Ns = fault_ms * MS + 3 * 3600 * 1_000_000_000;
     let finished = sim.run(6_000_000, budget);
 
+    if let Some(t) = &dbg_tap {
+        let t = t.lock().unwrap();
+        let n = t.pkts.len();
+        for p in t.pkts.iter().skip(n.saturating_sub(4000)) {
+            let kn = t.keys.get(p.key as usize).map_or(99, |k| k.node);
+            let line = format!("pkt keynode{} {}", kn, crate::world::describe_pkt_list(std::iter::once(p)));
+            sim.with(|s| s.log.push(line));
+        }
+    }
     // ---- oracle -----------------------------------------------------------------------------
     let r = res.lock().unwrap();
     let (pending_app, pending_drv): (Vec<String>, usize) = sim.with(|s| {
@@ -660,13 +717,13 @@ fn run(mut ch: Chooser, ctx: &RunCtx, faults: bool, big: bool) -> RunOut {
         }
     }
     if sim.with(|s| s.violations.is_empty()) {
-        if let Some(e) = r.unexpected.first() {
+        if let Some((_, e)) = r.unexpected.iter().find(|(ci, _)| !r.lost.contains(ci)) {
             sim.violate("async-unexpected-error", format!("an operation failed while its connection was meant to be alive: {} ({} such errors)", e, r.unexpected.len()));
         }
     }
     if sim.with(|s| s.violations.is_empty()) {
         for ((ci, sid), (n, complete)) in &r.written {
-            if !*complete {
+            if !*complete || r.lost.contains(ci) {
                 continue;
             }
             match r.read.get(&(*ci, *sid)) {
@@ -686,10 +743,14 @@ fn run(mut ch: Chooser, ctx: &RunCtx, faults: bool, big: bool) -> RunOut {
         }
     }
     let cancels = r.cancels;
+    let n_lost = r.lost.len() as u64;
     drop(r);
     sim.with(|s| {
         if cancels > 0 {
             s.probes.m.insert("futures_cancelled", cancels);
+        }
+        if n_lost > 0 {
+            s.probes.m.insert("connection_lost_to_idle_timeout_on_lossy_network", n_lost);
         }
         let mut o = RunOut {
             violations: std::mem::take(&mut s.violations),
